@@ -17,7 +17,7 @@ VERIF_HARNESS=$S/harness VERIF_REPO=$S/repo VERIF_EVIDENCE_DIR=$S/evidence VERIF
 RC=$?
 echo "rc=$RC"
 grep -E "^VIOLATION|^KNOWN-FINDING" $S/out.txt | cut -c1-300
-grep -E "^\[broken\]" $S/err.txt | cut -c1-400 | head -3
+grep -E "^\[broken\]" $S/err.txt | cut -c1-1200 | head -3
 for f in $S/replays/*.json; do [ -f "$f" ] && python3 -c "
 import json,sys
 r=json.load(open('$f'))
